@@ -62,16 +62,31 @@ class ADef(Abstract):
     # ---- the modelled interface
     def read(self, lookup_definitions: Any, definition_visitors: Any, print_output_handler: Any, allow_unregulated_fixed_port_id: Any, **kw: Any) -> Any:
         self.world.log.append(("read", self, lookup_definitions, definition_visitors, print_output_handler, allow_unregulated_fixed_port_id, kw))
+        if not self.world.__dict__.get("in_model"):
+            # a read requested by the evaluated code (not by this model on behalf of a definition's dependencies)
+            self.world.__dict__.setdefault("external_reads", []).append((self, print_output_handler))
         if self.composite_type is not None:
             return self.composite_type
         if self.fail:
-            raise Raised(self.fail, ast.Constant(value=None))
+            r = Raised(self.fail, ast.Constant(value=None))
+            from ..absint import AExc
+
+            r.exc = AExc(self.fail)  # type: ignore  # an error without location, as the type model raises them
+            self.__dict__["raised_exc"] = r.exc  # type: ignore
+            raise r
         if self.__dict__.get("prints") and print_output_handler is not None:
             # an evaluated `@print` on line 7 of this file: delivered through the (line, text) handler read() was given
-            print_output_handler(7, "printed by " + self.label)
+            from ..fold import _CURRENT, call_value
+
+            call_value(_CURRENT[-1], print_output_handler, [7, "printed by " + self.label])
         for dep in self.deps:
             # what the builder does when a reference is resolved: it reads the dependency and tells the visitors
-            dep.read(lookup_definitions, definition_visitors, print_output_handler, allow_unregulated_fixed_port_id, **kw)
+            was = self.world.__dict__.get("in_model")
+            self.world.__dict__["in_model"] = True
+            try:
+                dep.read(lookup_definitions, definition_visitors, print_output_handler, allow_unregulated_fixed_port_id, **kw)
+            finally:
+                self.world.__dict__["in_model"] = was
             for v in definition_visitors:
                 v.on_definition(self, dep)
         t = Sym(_kind_="StructureType", _isa_=frozenset({"CompositeType", "StructureType", "SerializableType"}), full_name=self.full_name, version=self.version, label=self.label, source_file_path=self.file_path, fixed_port_id=self.fixed_port_id)
@@ -112,6 +127,7 @@ def run_reader(ctx: Ctx, targets: List[ADef], lookups: List[ADef], handler: Any 
         out["result"] = call_fn(ctx, fn, [list(targets), list(lookups), handler, True], hook=_hook(ctx, fn.module, log), keep=tuple(fn.module.functions))
     except Raised as r:
         out["raised"] = r.cls_name
+        out["exc"] = getattr(r, "exc", None)
     except Unfoldable as ex:
         raise AnalysisError("read_definitions: cannot evaluate over the abstract world: %s" % ex)
     return out
@@ -257,6 +273,7 @@ def read_own(ctx: Ctx, d: Any, lookups: List[Any], times: int = 1, parse_fails: 
             out["results"].append(r)
         except Raised as ex:
             out["raised"] = ex.cls_name
+            out["exc"] = getattr(ex, "exc", None)
             out["results"].append("raise " + ex.cls_name)
             if not parse_fails:
                 break
